@@ -785,3 +785,160 @@ Example ex_dot_real_lookup_after_insert :
   first_assoc 2147483651 (dr_log d) = None /\
   resolve_inum rt rt_lookup (dr_t (snd (dot_run_real (snd (get d 32)) dot_h2))) 2147483651 = Ok 32.
 Proof. vm_compute. repeat split; reflexivity. Qed.
+
+(* ================= the fine-grained xattr reader API (strengthening, session 3: seed C10-6) =================
+   lib/sqfs/src/xattr/xattr_reader.c, one public call per operation on ONE long-lived reader object
+   (coq/C10/XFineModel.v): sqfs_xattr_reader_get_desc, _seek_kv, _read_key, _read_value (out-of-line values:
+   position saved and restored), _read, _read_all, _load again, sqfs_copy.  The reader's two meta readers are
+   separate state: reader objects R_XID (idrd, descriptor blocks) and R_XKV (kvrd, key/value area) of [xf_rs].
+   What include/sqfs/xattr_reader.h documents as reader state is ONE position indicator: seek_kv sets it,
+   read_key / read_value / read advance it; get_desc is a lookup. *)
+From SqfsV Require Import C10.XFineModel C10.XFineProofs.
+
+(* get_desc leaves the key/value cursor (and everything but idrd) as it was, and its answer does not depend on
+   the key/value cursor *)
+Theorem xattr_lookup_does_not_move_kv_cursor :
+  forall uncompress file fsize (sb : super) (s : xstate) (idx : N),
+  let s' := snd (xf_step uncompress file fsize sb s (XGet idx)) in
+  xf_xr s' = xf_xr s /\
+  (forall j, j <> R_XID -> xf_rs s' j = xf_rs s j) /\
+  (forall t, xf_xr t = xf_xr s -> xf_rs t R_XID = xf_rs s R_XID ->
+             fst (xf_step uncompress file fsize sb t (XGet idx)) = fst (xf_step uncompress file fsize sb s (XGet idx))).
+Proof.
+  intros u f fs sb s idx s'. destruct (get_desc_frame u f fs sb s idx) as [A B].
+  split; [exact A|]. split; [exact B|]. intros t X E. apply get_desc_indep; assumption.
+Qed.
+Print Assumptions xattr_lookup_does_not_move_kv_cursor.
+
+(* the mirror image: seek_kv / read_key / read_value / read leave the descriptor cursor alone and do not depend
+   on it *)
+Theorem xattr_kv_calls_do_not_move_id_cursor :
+  forall uncompress file fsize (sb : super) (s : xstate) (o : xop),
+  is_kv_op o = true ->
+  let s' := snd (xf_step uncompress file fsize sb s o) in
+  xf_xr s' = xf_xr s /\
+  (forall j, j <> R_XKV -> xf_rs s' j = xf_rs s j) /\
+  (forall t, xf_xr t = xf_xr s -> xf_rs t R_XKV = xf_rs s R_XKV ->
+             fst (xf_step uncompress file fsize sb t o) = fst (xf_step uncompress file fsize sb s o)).
+Proof.
+  intros u f fs sb s o K s'. destruct (kv_op_frame u f fs sb s o K) as [A B].
+  split; [exact A|]. split; [exact B|]. intros t X E. apply kv_op_indep; assumption.
+Qed.
+
+(* get_desc commutes with every call on the key/value cursor: both orders give the same two answers and the
+   same reader (no hypothesis on the state: any image, any past) *)
+Theorem xattr_get_desc_commutes :
+  forall uncompress file fsize (sb : super) (s : xstate) (idx : N) (o : xop),
+  is_kv_op o = true ->
+  let step := xf_step uncompress file fsize sb in
+  let s1 := snd (step s (XGet idx)) in
+  let s2 := snd (step s o) in
+  fst (step s2 (XGet idx)) = fst (step s (XGet idx)) /\
+  fst (step s1 o) = fst (step s o) /\
+  xf_xr (snd (step s1 o)) = xf_xr (snd (step s2 (XGet idx))) /\
+  forall k, xf_rs (snd (step s1 o)) k = xf_rs (snd (step s2 (XGet idx))) k.
+Proof. intros u f fs sb s idx o K. exact (get_desc_commutes_l u f fs sb s idx o K). Qed.
+Print Assumptions xattr_get_desc_commutes.
+
+(* a reader object in any state it can get into (h0: lookups, seeks, reads, read_all, re-loads, copies, in any
+   order, failed or not) against a reader loaded just now: seek_kv gives the same status, and after a
+   successful seek_kv the answers to all later calls that are not pure lookups are those of the history
+   WITHOUT the lookups on the new reader -- they depend on the image, the sought location and the cursor calls
+   since, on nothing else *)
+Theorem xattr_fine_history_free :
+  forall uncompress file fsize (sb : super) (xr : xreader) (h0 : list xop) (x count : N) (h : list xop),
+  xattr_load file sb = Ok xr -> xr_has_table xr = true ->
+  let step := xf_step uncompress file fsize sb in
+  let run := xf_run uncompress file fsize sb in
+  let s1 := snd (run h0 (xf_fresh sb xr)) in
+  let s2 := xf_fresh sb xr in
+  fst (step s1 (XSeek x count)) = fst (step s2 (XSeek x count)) /\
+  (fst (step s1 (XSeek x count)) = ASeek (Ok tt) ->
+   cursor_answers h (fst (run h (snd (step s1 (XSeek x count))))) =
+   fst (run (cursor_ops h) (snd (step s2 (XSeek x count))))).
+Proof. intros u f fs sb xr h0 x count h LD T. exact (fine_history_free u f fs sb xr h0 x count h LD T). Qed.
+Print Assumptions xattr_fine_history_free.
+
+(* the same for two reader objects with arbitrary, unrelated pasts (any two coherent reader families over the
+   same windows), without reference to how they got there *)
+Theorem xattr_fine_history_free_general :
+  forall uncompress file fsize (sb : super) (s1 s2 : xstate) (x count : N) (h : list xop),
+  xrel uncompress file nothing_positioned s1 s2 -> xr_has_table (xf_xr s1) = true ->
+  let step := xf_step uncompress file fsize sb in
+  let run := xf_run uncompress file fsize sb in
+  fst (step s1 (XSeek x count)) = fst (step s2 (XSeek x count)) /\
+  (fst (step s1 (XSeek x count)) = ASeek (Ok tt) ->
+   cursor_answers h (fst (run h (snd (step s1 (XSeek x count))))) =
+   fst (run (cursor_ops h) (snd (step s2 (XSeek x count))))).
+Proof. intros u f fs sb s1 s2 x count h R T. exact (fine_history_free_rel u f fs sb s1 s2 x count h R T). Qed.
+
+(* from whatever state the reader is in (successful seek or not): pure lookups between the calls never matter *)
+Theorem xattr_fine_lookups_irrelevant :
+  forall uncompress file fsize (sb : super) (xr : xreader) (h0 h : list xop),
+  xattr_load file sb = Ok xr ->
+  let run := xf_run uncompress file fsize sb in
+  let s := snd (run h0 (xf_fresh sb xr)) in
+  cursor_answers h (fst (run h s)) = fst (run (cursor_ops h) s).
+Proof. intros u f fs sb xr h0 h LD. exact (fine_lookups_irrelevant u f fs sb xr h0 h LD). Qed.
+Print Assumptions xattr_fine_lookups_irrelevant.
+
+(* get_desc, seek_kv (status), read_all, load position what they read themselves: history free on their own *)
+Theorem xattr_self_positioning_calls_history_free :
+  forall uncompress file fsize (sb : super) (s1 s2 : xstate) (o : xop),
+  xrel uncompress file nothing_positioned s1 s2 ->
+  match o with XGet _ | XAll _ | XSeek _ _ | XLoad | XCopy => True | _ => False end ->
+  fst (xf_step uncompress file fsize sb s1 o) = fst (xf_step uncompress file fsize sb s2 o).
+Proof. intros u f fs sb s1 s2 o R O. exact (self_positioning_rel u f fs sb s1 s2 o R O). Qed.
+
+(* non-vacuity.  A 108 byte image: key/value block at 0 (set 0 at offset 0: user.a = "xy", trusted.b = out-of-line
+   reference to the value of user.a, security.c = "z"; set 1 at offset 38: user.d = "w"), descriptor block at 50
+   (two descriptors), xattr id table at 84. *)
+Definition xw_img : list N :=
+  [48; 128; 0; 0; 1; 0; 97; 2; 0; 0; 0; 120; 121; 1; 1; 1; 0; 98; 8; 0; 0; 0; 5; 0; 0; 0; 0; 0; 0; 0; 2; 0; 1; 0; 99; 1; 0; 0; 0; 122;
+   0; 0; 1; 0; 100; 1; 0; 0; 0; 119;
+   32; 128; 0; 0; 0; 0; 0; 0; 0; 0; 3; 0; 0; 0; 0; 0; 0; 0; 38; 0; 0; 0; 0; 0; 0; 0; 1; 0; 0; 0; 0; 0; 0; 0;
+   0; 0; 0; 0; 0; 0; 0; 0; 2; 0; 0; 0; 0; 0; 0; 0; 50; 0; 0; 0; 0; 0; 0; 0].
+Definition xw_sb : super := mkSuper 4096 0 0 1 0 108 0 84 0 0 c10_meta_init_tag c10_meta_init_tag.
+Definition xw_xr : xreader := mkXr true 0 108 2 [50] 0.
+Definition xw_run := xf_run no_codec (read_at xw_img) (len xw_img) xw_sb.
+Definition xw_step := xf_step no_codec (read_at xw_img) (len xw_img) xw_sb.
+(* an earlier use of the reader: lookup, seek to set 1, a key, read_all of set 0, a key, a re-load, a key *)
+Definition xw_h0 : list xop := [XGet 1; XSeek 38 1; XKey; XAll 0; XKey; XLoad; XKey].
+(* after seek_kv to set 0: key, LOOKUP, value, key, LOOKUP, out-of-line value, COPY, pair, LOOKUP (fails), key, value *)
+Definition xw_h : list xop := [XKey; XGet 1; XVal 0; XKey; XGet 0; XVal 257; XCopy; XPair; XGet 7; XKey; XVal 0].
+
+Example ex_xfine_hypotheses : xattr_load (read_at xw_img) xw_sb = Ok xw_xr /\ xr_has_table xw_xr = true.
+Proof. vm_compute. split; reflexivity. Qed.
+
+Example ex_xfine_earlier_use :
+  fst (xw_run xw_h0 (xf_fresh xw_sb xw_xr)) =
+  [AGet (Ok (38, 1, 0)); ASeek (Ok tt); AKey (Ok (0, [117; 115; 101; 114; 46; 100]));
+   AAll (Ok [([117; 115; 101; 114; 46; 97], [120; 121]); ([116; 114; 117; 115; 116; 101; 100; 46; 98], [120; 121]);
+             ([115; 101; 99; 117; 114; 105; 116; 121; 46; 99], [122])]);
+   AKey (Ok (0, [117; 115; 101; 114; 46; 100])); ALoad (Ok tt); AKey (Ok (0, [117; 115; 101; 114; 46; 97]))].
+Proof. vm_compute. reflexivity. Qed.
+
+(* the instance of xattr_fine_history_free: the seek succeeds, the answers are the real pairs (the out-of-line value
+   "xy" included, and the pair after it), and they are those of the lookup-free history on a new reader *)
+Example ex_xfine_answers :
+  let s1 := snd (xw_run xw_h0 (xf_fresh xw_sb xw_xr)) in
+  fst (xw_step s1 (XSeek 0 3)) = ASeek (Ok tt) /\
+  cursor_answers xw_h (fst (xw_run xw_h (snd (xw_step s1 (XSeek 0 3))))) =
+  [AKey (Ok (0, [117; 115; 101; 114; 46; 97])); AVal (Ok [120; 121]);
+   AKey (Ok (257, [116; 114; 117; 115; 116; 101; 100; 46; 98])); AVal (Ok [120; 121]);
+   APair (Ok ([115; 101; 99; 117; 114; 105; 116; 121; 46; 99], [122]));
+   AKey (Ok (0, [117; 115; 101; 114; 46; 100])); AVal (Ok [119])] /\
+  fst (xw_run (cursor_ops xw_h) (snd (xw_step (xf_fresh xw_sb xw_xr) (XSeek 0 3)))) =
+  cursor_answers xw_h (fst (xw_run xw_h (snd (xw_step s1 (XSeek 0 3))))).
+Proof. vm_compute. repeat split; reflexivity. Qed.
+
+(* the lookups of that history really move the OTHER cursor (so the theorems are not about a get_desc that does
+   nothing), and a key/value call that comes first does change what a later key/value call returns (so
+   "commutes" is not true of arbitrary pairs of calls) *)
+Example ex_xfine_lookup_moves_id_cursor :
+  let s := snd (xw_step (xf_fresh xw_sb xw_xr) (XSeek 0 3)) in
+  get_position (xf_rs (snd (xw_step s (XGet 0))) R_XID) = (50, 16) /\
+  get_position (xf_rs s R_XID) <> (50, 16) /\
+  get_position (xf_rs (snd (xw_step s (XGet 0))) R_XKV) = get_position (xf_rs s R_XKV) /\
+  fst (xw_step (snd (xw_step s XKey)) XKey) <> fst (xw_step s XKey).
+Proof. vm_compute. repeat split; discriminate. Qed.
